@@ -639,10 +639,20 @@ func c16Oracle(c C16Case) (inconclusive bool, err error) {
 				kind = "remount"
 			}
 			if !findKind(kind, func(r RS) bool {
+				// options=( ) is matched as a whole: the rule covers the recorded mount only if it
+				// names exactly the recorded flags
+				nflags := 0
 				for _, o := range strings.Split(f["flags"], ", ") {
-					if o != "" && !fieldHas(r, "Options", o) {
+					if o == "" {
+						continue
+					}
+					nflags++
+					if !fieldHas(r, "Options", o) {
 						return false
 					}
+				}
+				if len(r.List("Options")) != nflags {
+					return false
 				}
 				if kind == "mount" && !fieldHas(r, "Source", f["srcname"]) {
 					return false
